@@ -117,8 +117,10 @@ def gen_graph(eng, tag, widths, fam, nids=None, eids=None, qterm=None, symbolic_
                     side[i] = list(perms[eng.choose(len(perms), f'{tag}perm{i}')])
     nodes = [OpGraphNode(nids[i], [eids[e] for e in ins[i]], [eids[e] for e in outs[i]], qn[i]) for i in range(nn)]
     elist = []
+    shared_nids = {}      # parallel edges are built from ONE caller-side list object (legal use: the constructor must copy it)
     for (e, a, b, oids) in edges:
-        elist.append(OpGraphEdge(eids[e], [nids[a], nids[b]], [(o, eng.sym(f'{tag}c{e}_{o}')) for o in oids]))
+        lst = shared_nids.setdefault((a, b), [nids[a], nids[b]])
+        elist.append(OpGraphEdge(eids[e], lst, [(o, eng.sym(f'{tag}c{e}_{o}')) for o in oids]))
     g = OpGraph(nodes, elist, [nids[0], nids[nn - 1]])
     desc = dict(layers=layers, edges=[(a, b, list(o)) for _, a, b, o in edges])
     return g, desc
